@@ -10,6 +10,12 @@
 //!     of the dispatcher (logged as `quiet`).
 //! The dispatcher lives on its own thread; the engine's thread watches it (release of held
 //! systems, detection of a call that stays parked although nothing is left to wait for).
+//! Which thread that is is a dimension of every case (the *calling context*, `CALLERS`): an
+//! ordinary thread, a worker of the dispatcher's own pool (the whole script, building the
+//! dispatcher included, runs inside `pool.install`), or a worker of another pool. The thread
+//! class 'c' of the log, the thread whose scheduler state tells the watcher that the caller is
+//! parked inside a call, and "the calling thread" of every oracle are that thread.
+//! A fifth of the random plans and two of the fixed ones are long (8 to 20 stages).
 //! The caller's `call` / `ret` events, `quiet` and the systems' F / D events go to one totally
 //! ordered log; implementation-side oracles decide the property on that log and on counters
 //! read at the very moment a call returns, then the log is fed to the Lean acceptor
@@ -123,14 +129,37 @@ pub struct Case {
     pub ops: Vec<Op>,
     pub arc: bool,
     pub threads: usize,
+    /// the calling context: which thread builds and drives the dispatcher (index into `CALLERS`)
+    pub caller: usize,
     pub holds: Vec<(usize, u64)>,
     pub aops: Vec<AOp>,
 }
+/// the calling contexts: the thread that builds the `AsyncDispatcher` and calls its methods is
+///   * `plain`: an ordinary thread (not a worker of any pool),
+///   * `own`: a worker thread of the dispatcher's own pool — the whole script runs inside
+///     `pool.install(..)`; `dispatch` then pushes the job onto that worker's own deque, a blocking
+///     call parks the worker in `recv` (std mpsc, rayon does not know) and another worker steals
+///     and runs the job. The pool has at least two threads: with exactly one, a blocking call
+///     after a dispatch can never return on the unchanged crate either (the only thread that could
+///     run the job is the one waiting for it), so that is not generated,
+///   * `other`: a worker thread of a different pool (`foreign.install(..)`).
+/// "The calling thread" of the oracles (thread class 'c', the thread whose scheduler state the
+/// watcher samples) is that thread in every context.
+pub const CALLERS: [&str; 3] = ["plain", "own", "other"];
+pub const OWN: usize = 1;
+
 impl Case {
+    /// what is run: in the `own` context the pool has at least two threads
+    pub fn normalized(mut self) -> Case {
+        if self.caller == OWN && self.threads < 2 {
+            self.threads = 2;
+        }
+        self
+    }
     pub fn lines(&self) -> Vec<String> {
         let mut v = vec![];
         Op::lines(&self.ops, &mut v);
-        v.push(format!("cfg world={} threads={}", if self.arc { "arc" } else { "plain" }, self.threads));
+        v.push(format!("cfg world={} threads={} caller={}", if self.arc { "arc" } else { "plain" }, self.threads, CALLERS[self.caller.min(2)]));
         for (t, us) in &self.holds {
             v.push(format!("hold {} {}", t, us));
         }
@@ -140,7 +169,7 @@ impl Case {
         v
     }
     pub fn parse(lines: &[String]) -> Case {
-        let mut c = Case { ops: vec![], arc: false, threads: 2, holds: vec![], aops: vec![] };
+        let mut c = Case { ops: vec![], arc: false, threads: 2, caller: 0, holds: vec![], aops: vec![] };
         let mut reg = vec![];
         for l in lines {
             let p: Vec<&str> = l.split_whitespace().collect();
@@ -151,6 +180,9 @@ impl Case {
                             c.arc = v == "arc";
                         } else if let Some(v) = kv.strip_prefix("threads=") {
                             c.threads = v.parse().unwrap_or(2).clamp(1, 8);
+                        } else if let Some(v) = kv.strip_prefix("caller=") {
+                            // (lines written before the calling context existed have no such word: plain)
+                            c.caller = CALLERS.iter().position(|n| *n == v).unwrap_or(0);
                         }
                     }
                 }
@@ -211,7 +243,7 @@ impl Case {
             }
         }
         c.ops = Op::parse(&reg).into_iter().filter(|o| !matches!(o, Op::Batch { .. })).collect();
-        c
+        c.normalized()
     }
     fn staged(&self) -> Vec<usize> {
         self.ops.iter().filter_map(|o| if let Op::Sys { tag, .. } = o { Some(*tag) } else { None }).collect()
@@ -227,16 +259,85 @@ fn parse_panic(v: &str) -> Option<(usize, u8)> {
     Some((t, if q.next() == Some("fetch") { 2 } else { 1 }))
 }
 
+/// a registration sequence whose plan has exactly `n` stages (8 ≤ n ≤ 20 from the generator), one
+/// "spine" system per stage. `style` 0: a dependency chain — every spine system names its
+/// predecessor. 1: a write-write chain on one resource — every system writes `R<0>`#0 and nothing
+/// else orders them; the builder finds the single group of every existing stage in conflict, joining
+/// it never improves the balance of a stage with one group, so each system opens a new stage.
+/// 2: a mixture — a spine system follows its predecessor by a dependency (80 %) or a barrier, and on
+/// top of that declares up to two reads / writes of four resources, so that the conflict search of
+/// the builder finds write-write, read-after-write and write-after-read conflicts with older
+/// stages. In styles 0 and 2 a fifth of the stages get a second, independent system (it depends on
+/// the spine system of the stage in front and only reads a resource the spine never touches, so it
+/// becomes a second group of the stage). Zero to two thread-local systems follow.
+pub fn long_plan(r: &mut Rng, n: usize, style: u64) -> Vec<Op> {
+    let mut ops = vec![];
+    let mut tag = 0usize;
+    let mut prev: Option<String> = None;
+    for _ in 0..n {
+        let name = format!("s{}", tag);
+        let (mut deps, mut rd, mut wr): (Vec<String>, Vec<Res>, Vec<Res>) = (vec![], vec![], vec![]);
+        match style {
+            0 => deps.extend(prev.iter().cloned()),
+            1 => wr.push((0, 0)),
+            _ => {
+                match &prev {
+                    Some(pn) if r.chance(80) => deps.push(pn.clone()),
+                    Some(_) => ops.push(Op::Barrier),
+                    None => {}
+                }
+                if r.chance(70) {
+                    for _ in 0..1 + r.below(2) {
+                        let x: Res = (0, r.below(NDY));
+                        if r.chance(50) {
+                            if !wr.contains(&x) {
+                                wr.push(x);
+                            }
+                        } else if !rd.contains(&x) && !wr.contains(&x) {
+                            rd.push(x);
+                        }
+                    }
+                }
+            }
+        }
+        let t = if r.chance(60) { 1 } else { 1 + r.below(5) as u8 };
+        ops.push(Op::Sys { tag, name: name.clone(), deps, r: rd, w: wr, t });
+        tag += 1;
+        if let (Some(pn), true, true) = (&prev, style != 1, r.chance(20)) {
+            ops.push(Op::Sys { tag, name: format!("s{}", tag), deps: vec![pn.clone()], r: vec![(1, r.below(NDY))], w: vec![], t: 1 });
+            tag += 1;
+        }
+        prev = Some(name);
+    }
+    for _ in 0..r.below(3) {
+        ops.push(Op::Tl { tag, r: vec![], w: vec![] });
+        tag += 1;
+    }
+    ops
+}
+
 pub fn gen_case(seed: u64, c: u64, max_ops: u64) -> Case {
     let mut cfg = GenCfg::profile("flat");
     cfg.max_n = 8;
     cfg.p_tl = 18;
     let mut g = Gen::new(Rng::new(seed, c), cfg);
-    let ops = g.case();
+    let mut ops = g.case();
+    // long plans (8 to 20 stages) and the calling context have a stream of their own
+    let mut rl = Rng::new(seed, c ^ 0x1009_91a5);
+    if rl.chance(22) {
+        let n = 8 + rl.below(13) as usize;
+        let style = rl.below(3);
+        ops = long_plan(&mut rl, n, style);
+    }
+    let caller = match rl.below(100) {
+        0..=39 => 0,
+        40..=74 => OWN,
+        _ => 2,
+    };
     let mut r = Rng::new(seed, c ^ 0x5eed_a5c1);
     // the injected panics and the world mutations have a stream of their own
     let mut rp = Rng::new(seed, c ^ 0x70a1_1c00);
-    let mut case = Case { ops, arc: r.chance(30), threads: 1 + r.below(4) as usize, holds: vec![], aops: vec![] };
+    let mut case = Case { ops, arc: r.chance(30), threads: 1 + r.below(4) as usize, caller, holds: vec![], aops: vec![] }.normalized();
     let staged = case.staged();
     for t in &staged {
         if r.chance(25) {
@@ -333,8 +434,11 @@ pub const CTX: [&str; 6] = ["idle", "held", "queued", "settled", "panicked", "pa
 pub const ENTRIES: usize = 11;
 /// number of different history steps: (context, entry point)
 pub const STEPS: u64 = (CTX.len() * ENTRIES) as u64;
+/// number of fixed plan / gate / pool / world variants of a history (the last two use `Arc<World>`,
+/// where `setup` is not available)
+pub const PLANS: u64 = 10;
 /// plans × the two places of a panic (inside `run` / in `fetch`)
-pub const VARIANTS: u64 = 16;
+pub const VARIANTS: u64 = 2 * PLANS;
 
 fn entry(code: usize, tls: &[usize], mode: u8) -> AOp {
     match code {
@@ -369,7 +473,9 @@ fn entry(code: usize, tls: &[usize], mode: u8) -> AOp {
 /// the caller is seen parked in it). `variant` picks the plan, the held / panicking system, the
 /// pool size, the world type and whether panics happen inside `run` or in `fetch`. A `setup`
 /// step is preceded by a `mutate` (resources removed / replaced through `world_mut()`).
-pub fn hist_case(idx: u64, depth: u64, variant: u64) -> Case {
+/// `caller` is the calling context of the whole history (`CALLERS`): the thread that builds the
+/// dispatcher and issues every step.
+pub fn hist_case(idx: u64, depth: u64, variant: u64, caller: usize) -> Case {
     let mut steps = vec![];
     let mut x = idx;
     for _ in 0..depth {
@@ -382,21 +488,35 @@ pub fn hist_case(idx: u64, depth: u64, variant: u64) -> Case {
     let a = ["sys 0 7330 - - 0.0 1", "sys 1 7331 - 1.0 - 1", "sys 2 7332 7330 0.0 - 1", "tl 3 - -"];
     let b = ["sys 0 7330 - - 0.0 1"];
     let c = ["sys 0 7330 - - 0.0 1", "sys 1 7331 - - 0.0 1", "sys 2 7332 - - 0.0 1", "tl 3 - -", "tl 4 - -"];
-    let variants: [(&[&str], &[usize], usize, bool, usize, &[usize]); 8] = [
-        (&a, &[0], 2, false, 0, &[1]),
-        (&a, &[2], 1, false, 0, &[0]),
-        (&b, &[0], 1, false, 0, &[0]),
-        (&c, &[2], 3, false, 1, &[0]),
-        (&a, &[1], 4, false, 1, &[0]),
-        (&c, &[1], 2, false, 1, &[1]),
-        (&a, &[2], 2, true, 0, &[1]),
-        (&c, &[0, 2], 3, true, 0, &[0]),
+    // long plans. `d`: nine systems that all write one resource — a write-write chain, nine stages,
+    // one system each; a thread-local system. `e`: a dependency chain of twelve systems (twelve
+    // stages), a second system in stages 4 and 8 (each depends on the spine system in front of its
+    // stage and only reads), two thread-local systems
+    let mut d: Vec<String> = (0..9).map(|k| format!("sys {} {} - - 0.0 1", k, hex(&format!("s{}", k)))).collect();
+    d.push("tl 9 - -".into());
+    let mut e: Vec<String> = (0..12).map(|k| format!("sys {} {} {} - - 1", k, hex(&format!("s{}", k)), if k == 0 { "-".to_string() } else { hex(&format!("s{}", k - 1)) })).collect();
+    e.push(format!("sys 12 {} {} 1.0 - 1", hex("s12"), hex("s3")));
+    e.push(format!("sys 13 {} {} 1.1 - 1", hex("s13"), hex("s7")));
+    e.push("tl 14 - -".into());
+    e.push("tl 15 - -".into());
+    let fixed = |p: &[&str]| -> Vec<String> { p.iter().map(|s| s.to_string()).collect() };
+    let variants: [(Vec<String>, &[usize], usize, bool, usize, &[usize]); PLANS as usize] = [
+        (fixed(&a), &[0], 2, false, 0, &[1]),
+        (fixed(&a), &[2], 1, false, 0, &[0]),
+        (fixed(&b), &[0], 1, false, 0, &[0]),
+        (fixed(&c), &[2], 3, false, 1, &[0]),
+        (fixed(&a), &[1], 4, false, 1, &[0]),
+        (fixed(&c), &[1], 2, false, 1, &[1]),
+        // held: the system of the last stage / a system in the middle and the extra system of stage 8
+        (d, &[8], 2, false, 7, &[7]),
+        (e, &[5, 13], 3, false, 12, &[4]),
+        (fixed(&a), &[2], 2, true, 0, &[1]),
+        (fixed(&c), &[0, 2], 3, true, 0, &[0]),
     ];
-    let nv = if uses_setup { 6 } else { 8 };
-    let (plan, gate, threads, arc, pan, pheld) = variants[(variant % nv) as usize];
+    let nv = if uses_setup { PLANS - 2 } else { PLANS };
+    let (lines, gate, threads, arc, pan, pheld) = variants[(variant % nv) as usize].clone();
     let mode = 1 + ((variant / nv) % 2) as u8;
-    let lines: Vec<String> = plan.iter().map(|s| s.to_string()).collect();
-    let mut case = Case { ops: Op::parse(&lines), arc, threads, holds: vec![], aops: vec![] };
+    let mut case = Case { ops: Op::parse(&lines), arc, threads, caller: caller.min(2), holds: vec![], aops: vec![] }.normalized();
     let tls = case.tls();
     let mut setups = 0;
     for s in steps {
@@ -485,6 +605,8 @@ pub struct RunOut {
     pub gone_missed: u64,
     /// a call that stayed parked although nothing was left to wait for: (operation, evidence)
     pub hang: Option<(String, String)>,
+    /// the case was given up after a long time without any progress (time bound only)
+    pub stall: Option<String>,
     pub watchdog: bool,
     pub runs: BTreeMap<usize, u64>,
     pub gate_waits: u64,
@@ -512,11 +634,19 @@ macro_rules! with_d {
     };
 }
 
-/// what the engine needs besides the case
-pub struct Env {
+/// the pools of the engine: `pools[n - 1]` has n threads and is the dispatcher's pool of a case
+/// with `threads = n`; `foreign` is the pool whose worker drives the dispatcher in the `other`
+/// calling context. All have a counting panic handler.
+pub struct PoolSet {
     pub pools: Vec<Pool>,
     /// OS thread ids of the workers of each pool (empty / 0 when they cannot be determined)
     pub tids: Vec<Vec<u64>>,
+    pub foreign: Pool,
+}
+
+/// what the engine needs besides the case
+pub struct Env {
+    pub set: Arc<Mutex<PoolSet>>,
     pub watchdog_ms: u64,
     /// a call is reported as stuck after it has been seen parked, with an idle pool, nothing
     /// held and no system inside `run`, at every sample over this many milliseconds
@@ -529,7 +659,24 @@ impl Env {
         let pool_panics = Arc::new(AtomicU64::new(0));
         let pools: Vec<Pool> = (1..=4).map(|n| make_counting_pool(n, pool_panics.clone())).collect();
         let tids = pools.iter().map(|p| p.broadcast(|_| os_tid())).collect();
-        Env { pools, tids, watchdog_ms, hang_ms, pool_panics }
+        let foreign = make_counting_pool(2, pool_panics.clone());
+        Env { set: Arc::new(Mutex::new(PoolSet { pools, tids, foreign })), watchdog_ms, hang_ms, pool_panics }
+    }
+    /// the same pools, another observation period
+    pub fn with_hang_ms(&self, hang_ms: u64) -> Env {
+        Env { set: self.set.clone(), watchdog_ms: self.watchdog_ms, hang_ms, pool_panics: self.pool_panics.clone() }
+    }
+    /// a worker of pool `pi` / of the foreign pool is lost for good (it drove a dispatcher whose
+    /// call never returned and was abandoned): later cases get a fresh pool
+    fn replace_lost(&self, pi: usize, foreign: bool) {
+        let mut set = self.set.lock().unwrap();
+        if foreign {
+            set.foreign = make_counting_pool(2, self.pool_panics.clone());
+        } else if pi < set.pools.len() {
+            let p = make_counting_pool(pi + 1, self.pool_panics.clone());
+            set.tids[pi] = p.broadcast(|_| os_tid());
+            set.pools[pi] = p;
+        }
     }
 }
 
@@ -641,8 +788,15 @@ fn unwind_kind(msg: &str) -> usize {
 /// the part of `run_real` that runs on the thread owning the dispatcher
 fn caller_body(case: &Case, shared: &Arc<Shared>, gates: &Arc<Gates>, w: &Arc<Watch>, pool: &Pool, ptids: &[u64], skip: &[usize], watchdog_ms: u64, pool_panics: &Arc<AtomicU64>) -> CallerOut {
     let mut cout = CallerOut::default();
+    // the calling thread of this case is the thread this function runs on — in the `own` / `other`
+    // contexts a pool worker (inside `install`), not the thread that was spawned for the case
     shared.set_caller();
-    w.tid.store(os_tid(), SeqCst);
+    let me = os_tid();
+    w.tid.store(me, SeqCst);
+    // in the `own` context the calling thread is itself one of the pool's workers: seen from here
+    // "every worker is parked" is a question about the others (this one is running)
+    let others: Vec<u64> = ptids.iter().cloned().filter(|t| *t != me).collect();
+    let ptids: &[u64] = &others;
     let staged: Vec<usize> = case.staged().into_iter().filter(|t| !skip.contains(t)).collect();
     let tls = case.tls();
     let built = catch_unwind(AssertUnwindSafe(|| {
@@ -1045,10 +1199,13 @@ pub fn run_real(case: &Case, shared: &Arc<Shared>, env: &Env, skip: &[usize]) ->
             b.hold_us.store(*us, SeqCst);
         }
     }
-    let pi = (case.threads - 1).min(env.pools.len() - 1);
-    let pool = env.pools[pi].clone();
-    let ptids: Vec<u64> = env.tids[pi].iter().cloned().filter(|t| *t != 0).collect();
-    let ptids = if ptids.len() == env.tids[pi].len() { ptids } else { vec![] };
+    let (pi, pool, ptids, foreign) = {
+        let set = env.set.lock().unwrap();
+        let pi = (case.threads.max(if case.caller == OWN { 2 } else { 1 }) - 1).min(set.pools.len() - 1);
+        let ptids: Vec<u64> = set.tids[pi].iter().cloned().filter(|t| *t != 0).collect();
+        let ptids = if ptids.len() == set.tids[pi].len() { ptids } else { vec![] };
+        (pi, set.pools[pi].clone(), ptids, set.foreign.clone())
+    };
     let w = Arc::new(Watch {
         entered: AtomicU64::new(0),
         returned: AtomicU64::new(0),
@@ -1070,7 +1227,13 @@ pub fn run_real(case: &Case, shared: &Arc<Shared>, env: &Env, skip: &[usize]) ->
     let handle = {
         let (case, shared, gates, w, pool, ptids, skip, wd, pp) = (case.clone(), shared.clone(), gates.clone(), w.clone(), pool.clone(), ptids.clone(), skip.to_vec(), env.watchdog_ms, env.pool_panics.clone());
         std::thread::Builder::new().name("asyncd-caller".into()).spawn(move || {
-            let r = caller_body(&case, &shared, &gates, &w, &pool, &ptids, &skip, wd, &pp);
+            // the calling context: the script (building the dispatcher included) runs on this
+            // thread, on a worker of the dispatcher's own pool, or on a worker of another pool
+            let r = match case.caller {
+                OWN => pool.install(|| caller_body(&case, &shared, &gates, &w, &pool, &ptids, &skip, wd, &pp)),
+                2 => foreign.install(|| caller_body(&case, &shared, &gates, &w, &pool, &ptids, &skip, wd, &pp)),
+                _ => caller_body(&case, &shared, &gates, &w, &pool, &ptids, &skip, wd, &pp),
+            };
             let _ = tx.send(r);
         })
     };
@@ -1086,6 +1249,7 @@ pub fn run_real(case: &Case, shared: &Arc<Shared>, env: &Env, skip: &[usize]) ->
     let (mut cur, mut t_enter, mut parked) = (0u64, Instant::now(), 0u32);
     let mut stuck_since: Option<Instant> = None;
     let mut stuck_samples = 0u64;
+    let (mut last_look, mut last_progress, mut last_sig) = (Instant::now(), Instant::now(), (0u64, 0u64, 0usize));
     loop {
         match rx.recv_timeout(Duration::from_micros(30)) {
             Ok(p) => {
@@ -1105,6 +1269,37 @@ pub fn run_real(case: &Case, shared: &Arc<Shared>, env: &Env, skip: &[usize]) ->
         }
         let e = w.entered.load(SeqCst);
         let r = w.returned.load(SeqCst);
+        // nothing is waited for for ever, whatever the thread states say (or when they cannot be
+        // read): a case in which nothing at all has happened for this long — no call entered or
+        // returned, no event logged — is given up (every wait of the harness itself is bounded by
+        // the gate watchdog, far below this)
+        if last_look.elapsed() > Duration::from_millis(100) {
+            last_look = Instant::now();
+            let sig = (e, r, shared.log.lock().unwrap().len());
+            if sig != last_sig {
+                last_sig = sig;
+                last_progress = Instant::now();
+            } else if last_progress.elapsed() > Duration::from_millis((4 * env.hang_ms).max(4 * env.watchdog_ms).max(20_000)) {
+                let op = if e > r { format!("inside {}()", OPS[w.cur_op.load(SeqCst).min(OPS.len() - 1)]) } else { "between two calls".to_string() };
+                out.stall = Some(format!(
+                    "the case was given up: nothing has happened for {} ms (no call entered or returned, no event logged) while the calling thread is {}; time bound only — the thread states do not show an idle pool, or cannot be read, so this is not a verdict about the call: calling thread state {:?}, systems inside run {}, held by the harness {}, runs finished per system: {:?}",
+                    last_progress.elapsed().as_millis(),
+                    op,
+                    thread_state(w.tid.load(SeqCst)),
+                    shared.inside.load(SeqCst),
+                    w.holds.lock().unwrap().len(),
+                    gates.done.iter().map(|c| c.load(SeqCst)).collect::<Vec<_>>()
+                ));
+                w.abandoned.store(true, SeqCst);
+                drop(handle);
+                // (the pool may still be occupied by whatever does not end: later cases get fresh ones)
+                env.replace_lost(pi, false);
+                if case.caller == 2 {
+                    env.replace_lost(pi, true);
+                }
+                break;
+            }
+        }
         if e <= r {
             stuck_since = None;
             continue;
@@ -1161,9 +1356,13 @@ pub fn run_real(case: &Case, shared: &Arc<Shared>, env: &Env, skip: &[usize]) ->
                     gates.done.iter().map(|c| c.load(SeqCst)).collect::<Vec<_>>()
                 ),
             ));
-            // the thread (and the dispatcher it owns) is abandoned
+            // the thread (and the dispatcher it owns) is abandoned; when that thread is a pool
+            // worker the pool has lost it for good, so later cases get a fresh pool
             w.abandoned.store(true, SeqCst);
             drop(handle);
+            if case.caller != 0 {
+                env.replace_lost(pi, case.caller == 2);
+            }
             break;
         }
         std::thread::sleep(Duration::from_micros(500));
@@ -1485,7 +1684,7 @@ pub fn impl_oracles(case: &Case, skip: &[usize], out: &RunOut) -> Vec<(String, S
             }
         }
     }
-    if out.panicked.is_none() && out.hang.is_none() {
+    if out.panicked.is_none() && out.hang.is_none() && out.stall.is_none() {
         if job_panic.is_none() {
             for t in &staged {
                 if out.runs.get(t).cloned().unwrap_or(0) != rets as u64 {
@@ -1537,12 +1736,12 @@ pub struct Eval {
 }
 
 pub fn eval_case(case: &Case, drv: Option<&mut Drv>, env: &Env) -> Eval {
-    let pools = &env.pools;
+    let pool0 = env.set.lock().unwrap().pools[0].clone();
     let shared = Shared::new(Op::max_tag(&case.ops) + 1);
     let mut drv = drv;
     let mut model_v = vec![];
     // model layout (and the outcome of every registration) via the plan engine's builder run
-    let built = build_case(&case.ops, drv.as_deref_mut(), shared.clone(), &pools[0], false);
+    let built = build_case(&case.ops, drv.as_deref_mut(), shared.clone(), &pool0, false);
     for d in &built.diffs {
         model_v.push(("outcome".to_string(), d.clone()));
     }
@@ -1558,6 +1757,9 @@ pub fn eval_case(case: &Case, drv: Option<&mut Drv>, env: &Env) -> Eval {
     if out.watchdog {
         model_v.push(("harness".into(), "a gate watchdog fired: a system waited for its gate longer than the bound".into()));
     }
+    if let Some(why) = &out.stall {
+        model_v.push(("harness".into(), why.clone()));
+    }
     if let Some((op, why)) = &out.hang {
         // `Async.blocked_only_while_running`: in the model a blocking call is disabled only while
         // the job has not sent, and the job can send once every system has finished
@@ -1568,7 +1770,7 @@ pub fn eval_case(case: &Case, drv: Option<&mut Drv>, env: &Env) -> Eval {
         ));
     }
     if let Some(d) = drv {
-        if out.panicked.is_none() && out.hang.is_none() {
+        if out.panicked.is_none() && out.hang.is_none() && out.stall.is_none() {
             if let Some(why) = model_check(d, &layout, &out.log) {
                 model_v.push(("async-log".into(), why));
             }
@@ -1773,11 +1975,18 @@ pub fn run(args: &Args, rep: &mut Report) {
     // every stride-th of them (offset from the seed)
     let hist = args.num("hist", 0);
     let hist_stride = args.num("hist-stride", 1).max(1);
+    // `--callers all`: every history in every calling context; `--callers one`: one context per
+    // history; default: all for single steps, one for longer histories
+    let all_callers = match args.str("callers", "auto").as_str() {
+        "all" => true,
+        "one" => false,
+        _ => hist == 1,
+    };
     let mut drv = Drv::spawn(&args.str("driver", "/verif/lean/.lake/build/bin/driver"));
     let env = Env::new(watchdog_ms, hang_ms);
     // while a stuck case is being made smaller a shorter observation period is enough
-    let env_shrink = Env { pools: env.pools.clone(), tids: env.tids.clone(), watchdog_ms, hang_ms: hang_ms.min(1200), pool_panics: env.pool_panics.clone() };
-    rep.rule = "(a) histories: every sequence of `hist` steps, a step = an entry point — one of the 9 public methods of AsyncDispatcher (dispatch / wait / wait_without_tl / running / world / world_mut / setup / res / mut_res), or wait with a panic injected into the first / the last thread-local system — issued in one of 6 contexts — idle; held: after a fresh dispatch with a system kept inside run; queued: after a fresh dispatch whose job cannot start; settled: after a fresh dispatch that finished on its own (the harness waits for the systems' own completion signal and an idle pool, no dispatcher method); panicked: after a fresh dispatch in which an ordinary system panicked (in fetch or inside run) and the pool's panic handler has been seen; panicking: after such a dispatch while another system (or the panicking one) is still held inside run — on 8 fixed plans / pools / world types; every setup is preceded by a mutate (the default-provided resources of the setup hooks removed / replaced through world_mut()) and followed by a look at the world; hist = 1 runs every step on all plans with both places of a panic; (b) flat registration sequences (profile flat + thread-local systems) × random sequences of ≤ max-ops such operations plus spin, settle and mutate (World or Arc<World>, pool of 1-4 threads, all with a panic handler), per-dispatch gates / queued jobs released after n further operations, by timer, or after the caller entered its next blocking operation, 12 % of the dispatches with a panicking system, 30 % of the waits with a panicking thread-local system; the script always goes on after a panic. Held systems are released only when the operation under test has returned or the calling thread has been seen parked inside it. distinct = distinct case texts; non-trivial = an entry point was issued while a system was inside run / the job had not started / the job had finished on its own unobserved / a system of the job had panicked".into();
+    let env_shrink = env.with_hang_ms(hang_ms.min(1200));
+    rep.rule = "(a) histories: every sequence of `hist` steps, a step = an entry point — one of the 9 public methods of AsyncDispatcher (dispatch / wait / wait_without_tl / running / world / world_mut / setup / res / mut_res), or wait with a panic injected into the first / the last thread-local system — issued in one of 6 contexts — idle; held: after a fresh dispatch with a system kept inside run; queued: after a fresh dispatch whose job cannot start; settled: after a fresh dispatch that finished on its own (the harness waits for the systems' own completion signal and an idle pool, no dispatcher method); panicked: after a fresh dispatch in which an ordinary system panicked (in fetch or inside run) and the pool's panic handler has been seen; panicking: after such a dispatch while another system (or the panicking one) is still held inside run — on 10 fixed plans / pools / world types (two of them long: nine stages of one system each — nine writers of one resource —, and a dependency chain of twelve stages with a second system in two of them), the whole history in one of 3 calling contexts: the thread that builds the dispatcher and issues every call is an ordinary thread / a worker of the dispatcher's own pool (the script runs inside pool.install, pool of at least 2 threads) / a worker of another pool (single steps: every context; longer histories: one context per history, chosen by a hash of seed and index, unless --callers all); every setup is preceded by a mutate (the default-provided resources of the setup hooks removed / replaced through world_mut()) and followed by a look at the world; hist = 1 runs every step on all plans with both places of a panic; (b) flat registration sequences (profile flat + thread-local systems; 22 %: long plans of 8 to 20 stages — a dependency chain, a write-write chain on one resource, or a mixture of dependencies, barriers and conflicting reads / writes, some stages with a second system) in a random calling context (40 % plain, 35 % own pool, 25 % other pool) × random sequences of ≤ max-ops such operations plus spin, settle and mutate (World or Arc<World>, pool of 1-4 threads, all with a panic handler), per-dispatch gates / queued jobs released after n further operations, by timer, or after the caller entered its next blocking operation, 12 % of the dispatches with a panicking system, 30 % of the waits with a panicking thread-local system; the script always goes on after a panic. Held systems are released only when the operation under test has returned or the calling thread — the thread that drives the dispatcher in the case's calling context — has been seen parked inside it. Every oracle is the same in every context. distinct = distinct case texts; non-trivial = an entry point was issued while a system was inside run / the job had not started / the job had finished on its own unobserved / a system of the job had panicked".into();
     let mut todo: Vec<(String, Case)> = vec![];
     if let Some(f) = args.get("replay") {
         let text = std::fs::read_to_string(&f).expect("replay file");
@@ -1802,14 +2011,30 @@ pub fn run(args: &Args, rep: &mut Report) {
             let mut i = seed % hist_stride;
             while i < total {
                 if hist == 1 {
-                    // single steps: on every plan / pool / world type, with both places of a panic
+                    // single steps: on every plan / pool / world type, with both places of a panic,
+                    // in every calling context
                     for v in 0..VARIANTS {
-                        todo.push((format!("hist:1:{}:v{}", i, v), hist_case(i, 1, v)));
-                        rep.count("history_cases");
+                        for cc in 0..CALLERS.len() {
+                            if all_callers || cc as u64 == (i + v + seed) % CALLERS.len() as u64 {
+                                todo.push((format!("hist:1:{}:v{}:{}", i, v, CALLERS[cc]), hist_case(i, 1, v, cc)));
+                                rep.count("history_cases");
+                            }
+                        }
                     }
                 } else {
-                    todo.push((format!("hist:{}:{}", hist, i), hist_case(i, hist, i / hist_stride + seed)));
-                    rep.count("history_cases");
+                    // the calling context is a third coordinate of the space of histories (and the
+                    // variant a fourth); unless `--callers all` is given one point per history is
+                    // taken, chosen by a hash of the seed and the index so that neither is tied to
+                    // a step or to a position in the history
+                    let mut h = Rng::new(seed, 0x4157_0000_0000 ^ i);
+                    let v = h.below(VARIANTS);
+                    let pick = h.below(CALLERS.len() as u64) as usize;
+                    for cc in 0..CALLERS.len() {
+                        if all_callers || cc == pick {
+                            todo.push((format!("hist:{}:{}:v{}:{}", hist, i, v, CALLERS[cc]), hist_case(i, hist, v, cc)));
+                            rep.count("history_cases");
+                        }
+                    }
                 }
                 i += hist_stride;
             }
@@ -1821,6 +2046,7 @@ pub fn run(args: &Args, rep: &mut Report) {
     let mut reported: std::collections::BTreeSet<String> = Default::default();
     let mut pairs_seen: std::collections::BTreeSet<(usize, usize)> = Default::default();
     let mut ctx_seen: std::collections::BTreeSet<(usize, usize)> = Default::default();
+    let mut caller_ctx_seen: std::collections::BTreeSet<(usize, usize, usize)> = Default::default();
     let mut stuck = 0;
     for (label, case) in todo {
         if stuck >= 3 {
@@ -1878,6 +2104,28 @@ pub fn run(args: &Args, rep: &mut Report) {
         rep.maxi("max_systems", case.staged().len() as u64);
         rep.count(if case.arc { "world_arc" } else { "world_plain" });
         rep.count(&format!("pool_threads_{}", case.threads));
+        // the calling context, and what was observed in it (the watcher's instrumentation works on
+        // the driving thread of every context: holds released because that thread was seen parked)
+        let cn = CALLERS[case.caller.min(2)];
+        rep.count(&format!("caller_{}", cn));
+        rep.add(&format!("caller_{}_blocking_op_entered_while_a_system_is_inside_run", cn), sh.entered_open);
+        rep.add(&format!("caller_{}_released_after_caller_seen_parked_in_the_call", cn), ev.out.rel_blocked);
+        rep.add(&format!("caller_{}_released_by_time_bound", cn), ev.out.rel_fallback);
+        for (o, c) in &sh.ctxs {
+            caller_ctx_seen.insert((case.caller, *o, *c));
+        }
+        // long plans: stages of the plan the dispatcher executes, dispatches of such plans
+        let n_stages = parse_model_layout(&ev.layout).sys.len() as u64;
+        let n_disp = ev.out.log.iter().filter(|e| matches!(e, Ent::Ret(0, _))).count() as u64;
+        rep.maxi("max_stages", n_stages);
+        if n_stages >= 8 {
+            rep.count("cases_with_a_plan_of_8_or_more_stages");
+            rep.count(&format!("caller_{}_cases_with_a_plan_of_8_or_more_stages", cn));
+            rep.add("dispatches_of_plans_with_8_or_more_stages", n_disp);
+        }
+        if n_stages >= 16 {
+            rep.count("cases_with_a_plan_of_16_or_more_stages");
+        }
         if case.aops.iter().any(|a| matches!(a, AOp::Dispatch { gate, .. } if !gate.is_empty())) {
             rep.count("cases_with_gated_dispatch");
         }
@@ -1889,6 +2137,10 @@ pub fn run(args: &Args, rep: &mut Report) {
         }
         if ev.out.hang.is_some() {
             rep.count("stuck_calls");
+            stuck += 1;
+        }
+        if ev.out.stall.is_some() {
+            rep.count("cases_given_up_after_no_progress");
             stuck += 1;
         }
         let nontrivial = sh.ctxs.iter().any(|(_, c)| *c != 0);
@@ -1926,7 +2178,8 @@ pub fn run(args: &Args, rep: &mut Report) {
             if reported.insert(format!("model:{}", aspect)) {
                 let asp = aspect.clone();
                 // a stuck call costs a whole observation period per attempt: bounded effort
-                let mut budget = if asp == "async-progress" { 14 } else { 400 };
+                // (a case given up after the no-progress bound is reported as it is)
+                let mut budget = if ev.out.stall.is_some() { 0 } else if asp == "async-progress" { 14 } else { 400 };
                 let small = shrink_case(&case, &mut |c: &Case| {
                     if budget == 0 {
                         return false;
@@ -1941,6 +2194,7 @@ pub fn run(args: &Args, rep: &mut Report) {
         }
     }
     rep.add("distinct_entry_point_x_job_state", ctx_seen.len() as u64);
+    rep.add("distinct_calling_context_x_entry_point_x_job_state", caller_ctx_seen.len() as u64);
     rep.add("distinct_first_look_x_later_call_pairs", pairs_seen.len() as u64);
     rep.add("driver_requests", drv.requests);
 }
